@@ -186,6 +186,11 @@ func (lm *levelManager) searchLowerBound(key types.Key) (types.Entry, bool) {
 		return types.Entry{}, false
 	}
 
+	// Every table may hold a version of the key: L0 tables overlap, and neither list order
+	// nor file order after recovery says which table is newer. Look into all of them and
+	// keep the newest version of the same user key that is <= the target version.
+	var best types.Entry
+	var found bool
 	for level, tables := range lm.levels {
 		for e := tables.Front(); e != nil; e = e.Next() {
 			th := e.Value.(tableHandle)
@@ -205,13 +210,16 @@ func (lm *levelManager) searchLowerBound(key types.Key) (types.Entry, bool) {
 
 			// in this sstable, search according to data block
 			entry, ok := lm.fetchAndSearchLowerBound(key, level, th.levelIdx, dataBlockHandle)
-			if ok {
-				return entry, true
+			if !ok || !types.IsSameKey(key, entry.Key) {
+				continue
+			}
+			if !found || types.CompareKeys(entry.Key, best.Key) < 0 {
+				best, found = entry, true
 			}
 		}
 	}
 
-	return types.Entry{}, false
+	return best, found
 }
 
 // TODO: replace with iterator
